@@ -4,83 +4,649 @@ package main
 //   →  lean/Verif/Gen/Wrappers.lean
 //
 // Each statement of Reader, Writer, writer.Close, responseWriter.{WriteHeader,Write,Close}, ResponseWriter,
-// Middleware, MiddlewareWithError, Bytes, String is mapped to an atom (Verif.Skel.WAtom) by AST shape +
-// normalised source text of its leaves; compound statements (go func, first-write if, Match if, handler
-// closure) become bracket atoms around the atoms of their bodies.  Unrecognised statements become
-// `other "<text>"`; no Lean well-formedness predicate accepts those, and any re-ordering changes the value.
+// Middleware, MiddlewareWithError, Bytes, String is mapped to an atom (Verif.Skel.WAtom); compound statements (go func,
+// first-write if, Match if, handler closure) become bracket atoms around the atoms of their bodies.  Unrecognised
+// statements become `other "<text>"`; no Lean well-formedness predicate accepts those, and any re-ordering changes the value.
 //
-// InputUses: for every Minify method/function of the library the uses of its io.Reader parameter.
+// The statements are matched on a NORMAL FORM of the function, computed on a private, separately type-checked copy of
+// package minify (so that the copy can be rewritten freely):
+//   * every identifier is replaced by a canonical name derived from what it denotes, not from how it is spelled: the receiver
+//     by its type (m / z / w), parameters by their position, locals by their type (*io.PipeReader → pr, *io.PipeWriter → pw,
+//     *writer → z, error → err, …), fields of the unexported structs writer and responseWriter by their type, package
+//     qualifiers by the imported package's name.  Two different variables that would get the same name while both are in
+//     scope keep a distinguishing suffix (and are then not recognised): a rename can never merge two variables;
+//   * constants are replaced by their value ("Content-Length" through a named constant is "Content-Length");
+//   * struct literals of the two unexported structs are written keyed, zero-valued fields dropped, fields in canonical order;
+//   * `nil != x` is `x != nil`, `x == true` is `x`; `if e == nil { A } else { B }` is `if e != nil { B } else { A }`;
+//     `e := f(); if e != nil {…}` is `if e := f(); e != nil {…}`;
+//   * a local of no particular role that is defined once and used once, in the next statement, is replaced by its
+//     definition (`private := parse.Copy(v); in := buffer.NewReader(private); m.Minify(…, in)`).
 //
-// RetFacts (ownership of returned memory): for Bytes and String, result 0 of every `return` (the input parameter,
-// `X.Bytes()` of the output buffer, a copy of it, or something else) and where that buffer X comes from: a FRESH
-// LOCAL (allocated in this call, never re-assigned, used only as the writer argument of m.Minify and as the receiver
-// of Bytes/Len/String/Write*/Reset) or SHARED (package-level variable, sync.Pool, struct field, parameter, or a local
-// that escapes into another call / defer / closure / assignment).  Model/Stream.lean demands a fresh local.
+// InputUses: for every Minify method/function of the library the uses of its io.Reader parameter (by object, the parameter
+// being the one whose type is io.Reader under whatever import name).
+//
+// RetFacts (ownership of returned memory, read from the same normal form): for Bytes and String, result 0 of every `return`
+// (the input parameter, `X.Bytes()` of the output buffer, a copy of it, or something else) and where that buffer X comes
+// from: a FRESH LOCAL (allocated in this call, never re-assigned, used only as the writer argument of m.Minify and as the
+// receiver of Bytes/Len/String/Write*/Reset) or SHARED (package-level variable, sync.Pool, struct field, parameter, or a
+// local that escapes into another call / defer / closure / assignment).  Model/Stream.lean demands a fresh local.
 
 import (
 	"fmt"
 	"go/ast"
+	"go/constant"
+	"go/importer"
+	"go/parser"
 	"go/token"
+	"go/types"
+	"os"
+	"path/filepath"
+	"reflect"
 	"regexp"
+	"sort"
+	"strconv"
 	"strings"
+
+	"golang.org/x/tools/go/ast/astutil"
+	"golang.org/x/tools/go/packages"
 )
 
-type c12Walker struct{ r *Repo }
-
 var c12Leaf = map[string]string{
-	"pr, pw := io.Pipe()":                            "pipeNew",
-	"z := &writer{pw, sync.WaitGroup{}, false, nil}": "mkWriter",
-	"z.wg.Add(1)":                                    "wgAdd",
-	"defer z.wg.Done()":                              "deferWgDone",
-	"z.wg.Done()":                                    "wgDone",
-	"defer pr.Close()":                               "deferPipeReaderClose",
-	"pr.Close()":                                     "pipeReaderClose",
-	"return z":                                       "returnWriter",
-	"return pr":                                      "returnPipeReader",
-	"if z.closed { return nil }":                     "returnNilIfClosed",
-	"z.closed = true":                                "setClosed",
-	"err := z.WriteCloser.Close()":                   "pipeWriterClose",
-	"z.wg.Wait()":                                    "wgWait",
-	"w.z = z":                                        "setZWriter",
-	"w.z = w.ResponseWriter":                         "setZPassthrough",
-	"return w.z.Write(b)":                            "returnZWrite",
-	"return nil":                                     "returnNil",
-	"w.ResponseWriter.Header().Del(\"Content-Length\")":                               "delContentLength",
-	"w.ResponseWriter.WriteHeader(status)":                                            "forwardWriteHeader",
-	"mediatype := mime.TypeByExtension(path.Ext(r.RequestURI))":                       "mediatypeFromExt",
-	"return &responseWriter{w, nil, m, mediatype}":                                    "returnResponseWriter",
-	"mw := m.ResponseWriter(w, r)":                                                    "mkResponseWriter",
-	"next.ServeHTTP(mw, r)":                                                           "serveNext",
-	"mw.Close()":                                                                      "closeMw",
-	"out := buffer.NewWriter(make([]byte, 0, len(v)))":                                "newOutBuffer",
-	"return out.Bytes(), nil":                                                         "returnOut",
-	"return string(out.Bytes()), nil":                                                 "returnOut",
-	"if closer, ok := w.z.(interface{ Close() error }); ok { return closer.Close() }": "closeIfCloser",
+	"pr, pw := io.Pipe()":           "pipeNew",
+	"z := &writer{WriteCloser: pw}": "mkWriter",
+	"z.wg.Add(1)":                   "wgAdd",
+	"defer z.wg.Done()":             "deferWgDone",
+	"z.wg.Done()":                   "wgDone",
+	"defer pr.Close()":              "deferPipeReaderClose",
+	"pr.Close()":                    "pipeReaderClose",
+	"return z":                      "returnWriter",
+	"return pr":                     "returnPipeReader",
+	"if z.closed { return nil }":    "returnNilIfClosed",
+	"z.closed = true":               "setClosed",
+	"err := z.WriteCloser.Close()":  "pipeWriterClose",
+	"z.wg.Wait()":                   "wgWait",
+	"w.z = z":                       "setZWriter",
+	"w.z = w.ResponseWriter":        "setZPassthrough",
+	"return w.z.Write(b)":           "returnZWrite",
+	"return nil":                    "returnNil",
+	"w.ResponseWriter.Header().Del(\"Content-Length\")":                                "delContentLength",
+	"w.ResponseWriter.WriteHeader(status)":                                             "forwardWriteHeader",
+	"mediatype := mime.TypeByExtension(path.Ext(r.RequestURI))":                        "mediatypeFromExt",
+	"return &responseWriter{ResponseWriter: w, m: m, mediatype: mediatype}":            "returnResponseWriter",
+	"mw := m.ResponseWriter(w, r)":                                                     "mkResponseWriter",
+	"next.ServeHTTP(mw, r)":                                                            "serveNext",
+	"mw.Close()":                                                                       "closeMw",
+	"out := buffer.NewWriter(make([]byte, 0, len(v)))":                                 "newOutBuffer",
+	"return out.Bytes(), nil":                                                          "returnOut",
+	"return string(out.Bytes()), nil":                                                  "returnOut",
+	"if closer, ok := w.z.(interface{ Close() error }); ok { return closer.Close() }":  "closeIfCloser",
+	"if closer, ok := w.z.(interface { Close() error }); ok { return closer.Close() }": "closeIfCloser",
 	"if mediatype := w.ResponseWriter.Header().Get(\"Content-Type\"); mediatype != \"\" { w.mediatype = mediatype }": "pickContentType",
 	"if err := mw.Close(); err != nil { errorFunc(w, r, err) return }":                                               "closeMwReportErr",
 	"if err := m.Minify(mediatype, out, buffer.NewReader(parse.Copy(v))); err != nil { return v, err }":              "minifyBufOrReturnInput true",
+	"if err := m.Minify(mediatype, out, buffer.NewReader(bytes.Clone(v))); err != nil { return v, err }":             "minifyBufOrReturnInput true",
+	"if err := m.Minify(mediatype, out, buffer.NewReader(append([]byte(nil), v...))); err != nil { return v, err }":  "minifyBufOrReturnInput true",
 	"if err := m.Minify(mediatype, out, buffer.NewReader([]byte(v))); err != nil { return v, err }":                  "minifyBufOrReturnInput true",
 	"if err := m.Minify(mediatype, out, buffer.NewReader(v)); err != nil { return v, err }":                          "minifyBufOrReturnInput false",
 }
 
 var c12CallRe = regexp.MustCompile(`^err := (m\.Minify\(mediatype, (\w+), (\w+)\)|minifier\(w\.m, w\.ResponseWriter, (\w+), params\))$`)
 
-func normText(fset *token.FileSet, n ast.Node) string {
-	// like c14Src but never truncated
-	s := c14SrcN(fset, n, 1<<20)
-	return s
+// ---- private typed copy of a package ----
+
+type c12Copy struct {
+	fset  *token.FileSet
+	files []*ast.File
+	info  *types.Info
+	pkg   *types.Package
+}
+
+type c12Importer struct {
+	deps map[string]*packages.Package
+	def  types.Importer
+}
+
+func (i c12Importer) Import(path string) (*types.Package, error) {
+	if p, ok := i.deps[path]; ok && p.Types != nil {
+		return p.Types, nil
+	}
+	return i.def.Import(path)
+}
+
+func c12PrivateCopy(e *tenv, rel string) (*c12Copy, error) {
+	p, err := e.Pkg(rel)
+	if err != nil {
+		return nil, err
+	}
+	dir := filepath.Join(e.r.Dir, rel)
+	ents, err := os.ReadDir(dir)
+	if err != nil {
+		return nil, err
+	}
+	c := &c12Copy{fset: token.NewFileSet()}
+	for _, en := range ents {
+		n := en.Name()
+		if !strings.HasSuffix(n, ".go") || strings.HasSuffix(n, "_test.go") || strings.HasPrefix(n, "verif_") {
+			continue
+		}
+		f, err := parser.ParseFile(c.fset, filepath.Join(dir, n), nil, parser.SkipObjectResolution)
+		if err != nil {
+			return nil, err
+		}
+		c.files = append(c.files, f)
+	}
+	c.info = &types.Info{Types: map[ast.Expr]types.TypeAndValue{}, Defs: map[*ast.Ident]types.Object{}, Uses: map[*ast.Ident]types.Object{},
+		Selections: map[*ast.SelectorExpr]*types.Selection{}, Scopes: map[ast.Node]*types.Scope{}, Implicits: map[ast.Node]types.Object{}}
+	conf := types.Config{Importer: c12Importer{deps: p.Imports, def: importer.Default()}}
+	c.pkg, err = conf.Check(p.PkgPath, c.fset, c.files, c.info)
+	if err != nil {
+		return nil, fmt.Errorf("type-checking the private copy of %s: %v", p.PkgPath, err)
+	}
+	return c, nil
+}
+
+func (c *c12Copy) funcDecl(recv, name string) (*ast.FuncDecl, error) {
+	for _, f := range c.files {
+		for _, d := range f.Decls {
+			fd, ok := d.(*ast.FuncDecl)
+			if !ok || fd.Name.Name != name || fd.Body == nil {
+				continue
+			}
+			got := ""
+			if fd.Recv != nil && len(fd.Recv.List) == 1 {
+				t := fd.Recv.List[0].Type
+				if s, ok := t.(*ast.StarExpr); ok {
+					t = s.X
+				}
+				if id, ok := t.(*ast.Ident); ok {
+					got = id.Name
+				}
+			}
+			if got == recv {
+				return fd, nil
+			}
+		}
+	}
+	return nil, fmt.Errorf("minify: func (%s).%s not found", recv, name)
+}
+
+// ---- normal form ----
+
+var c12RecvNames = map[string]string{"M": "m", "writer": "z", "responseWriter": "w"}
+
+var c12ParamNames = map[string][]string{
+	"M.Reader": {"mediatype", "r"}, "M.Writer": {"mediatype", "w"}, "writer.Close": {}, "responseWriter.WriteHeader": {"status"},
+	"responseWriter.Write": {"b"}, "responseWriter.Close": {}, "M.ResponseWriter": {"w", "r"}, "M.Middleware": {"next"},
+	"M.MiddlewareWithError": {"next", "errorFunc"}, "M.Bytes": {"mediatype", "v"}, "M.String": {"mediatype", "v"},
+}
+
+// canonical names of locals and of the fields of the two unexported structs, by type
+var c12TypeNames = map[string]string{
+	"*io.PipeReader": "pr", "*io.PipeWriter": "pw", "*minify.writer": "z", "error": "err", "string": "mediatype",
+	"*minify.responseWriter": "mw", "*buffer.Writer": "out", "map[string]string": "params", "minify.MinifierFunc": "minifier",
+	"bool": "ok", "interface{Close() error}": "closer",
+}
+var c12FieldNames = map[string]map[string]string{
+	"writer":         {"io.WriteCloser": "WriteCloser", "sync.WaitGroup": "wg", "bool": "closed", "error": "err"},
+	"responseWriter": {"net/http.ResponseWriter": "ResponseWriter", "io.Writer": "z", "*minify.M": "m", "string": "mediatype"},
+}
+
+func c12TypeString(t types.Type) string {
+	return types.TypeString(t, func(p *types.Package) string {
+		if p.Path() == modPath {
+			return "minify"
+		}
+		return p.Name()
+	})
+}
+
+func c12FieldKey(t types.Type) string {
+	return types.TypeString(t, func(p *types.Package) string {
+		if p.Path() == modPath {
+			return "minify"
+		}
+		if p.Path() == "net/http" {
+			return "net/http"
+		}
+		return p.Name()
+	})
+}
+
+type c12Norm struct {
+	c      *c12Copy
+	rename map[types.Object]string
+}
+
+// fieldName: canonical name of a field of writer / responseWriter
+func (n *c12Norm) fieldName(f *types.Var, owner types.Type) string {
+	if pt, ok := owner.Underlying().(*types.Pointer); ok {
+		owner = pt.Elem()
+	}
+	nt, ok := types.Unalias(owner).(*types.Named)
+	if !ok || nt.Obj().Pkg() != n.c.pkg {
+		return ""
+	}
+	m, ok := c12FieldNames[nt.Obj().Name()]
+	if !ok {
+		return ""
+	}
+	st, ok := nt.Underlying().(*types.Struct)
+	if !ok {
+		return ""
+	}
+	key := c12FieldKey(f.Type())
+	cnt := 0
+	for i := 0; i < st.NumFields(); i++ {
+		if c12FieldKey(st.Field(i).Type()) == key {
+			cnt++
+		}
+	}
+	if cnt != 1 {
+		return "" // two fields of one type: no canonical name
+	}
+	return m[key]
+}
+
+func isZeroValueExpr(info *types.Info, x ast.Expr) bool {
+	x = unparen(x)
+	if tv, ok := info.Types[x]; ok && tv.Value != nil {
+		switch tv.Value.Kind() {
+		case constant.Bool:
+			return !constant.BoolVal(tv.Value)
+		case constant.String:
+			return constant.StringVal(tv.Value) == ""
+		case constant.Int, constant.Float:
+			return constant.Sign(tv.Value) == 0
+		}
+	}
+	if id, ok := x.(*ast.Ident); ok {
+		_, isNil := info.Uses[id].(*types.Nil)
+		return isNil
+	}
+	if cl, ok := x.(*ast.CompositeLit); ok {
+		if _, isStruct := info.TypeOf(cl).Underlying().(*types.Struct); isStruct && len(cl.Elts) == 0 {
+			return true
+		}
+	}
+	return false
+}
+
+// normalise rewrites the function declaration in place (it belongs to the private copy)
+func (n *c12Norm) normalise(fd *ast.FuncDecl, key string) {
+	info := n.c.info
+	n.rename = map[types.Object]string{}
+	// receiver and parameters
+	if fd.Recv != nil && len(fd.Recv.List) == 1 && len(fd.Recv.List[0].Names) == 1 {
+		rn := strings.SplitN(key, ".", 2)[0]
+		if cn, ok := c12RecvNames[rn]; ok {
+			n.rename[info.Defs[fd.Recv.List[0].Names[0]]] = cn
+		}
+	}
+	i := 0
+	for _, f := range fd.Type.Params.List {
+		for _, id := range f.Names {
+			if names := c12ParamNames[key]; i < len(names) {
+				n.rename[info.Defs[id]] = names[i]
+			}
+			i++
+		}
+	}
+	// handler closures: func(w http.ResponseWriter, r *http.Request)
+	ast.Inspect(fd.Body, func(x ast.Node) bool {
+		if fl, ok := x.(*ast.FuncLit); ok && len(fl.Type.Params.List) > 0 {
+			names := []string{"w", "r"}
+			j := 0
+			for _, f := range fl.Type.Params.List {
+				for _, id := range f.Names {
+					if j < len(names) {
+						n.rename[info.Defs[id]] = names[j]
+					}
+					j++
+				}
+			}
+		}
+		return true
+	})
+	// locals by type
+	var locals []types.Object
+	ast.Inspect(fd.Body, func(x ast.Node) bool {
+		if id, ok := x.(*ast.Ident); ok && id.Name != "_" {
+			if o, ok := info.Defs[id].(*types.Var); ok && !o.IsField() {
+				if _, done := n.rename[o]; !done {
+					if cn, ok := c12TypeNames[c12TypeString(o.Type())]; ok {
+						n.rename[o] = cn
+						locals = append(locals, o)
+					}
+				}
+			}
+		}
+		return true
+	})
+	// never merge two variables that are in scope together
+	all := make([]types.Object, 0, len(n.rename))
+	for o := range n.rename {
+		all = append(all, o)
+	}
+	sort.Slice(all, func(i, j int) bool { return all[i].Pos() < all[j].Pos() })
+	for i, a := range all {
+		for _, b := range all[:i] {
+			if n.rename[a] == n.rename[b] && b.Parent() != nil && b.Parent().Contains(a.Pos()) {
+				n.rename[a] = n.rename[a] + "_" + strconv.Itoa(i)
+			}
+		}
+	}
+	// (a) inline role-less once-defined locals used once in the next statement; (b) hoisted if-init; (c) inverted if
+	n.rewriteLists(fd.Body)
+	// identifiers (the declaration's own parameter list included), constants, selectors, struct literals
+	astutil.Apply(fd, func(c *astutil.Cursor) bool {
+		switch x := c.Node().(type) {
+		case *ast.CompositeLit:
+			n.canonLit(x)
+		case *ast.BinaryExpr:
+			n.canonCmp(c, x)
+		}
+		return true
+	}, func(c *astutil.Cursor) bool {
+		switch x := c.Node().(type) {
+		case *ast.SelectorExpr:
+			if sel, ok := info.Selections[x]; ok && sel.Kind() == types.FieldVal {
+				if f, ok := sel.Obj().(*types.Var); ok {
+					if cn := n.fieldName(f, sel.Recv()); cn != "" {
+						x.Sel = &ast.Ident{Name: cn, NamePos: x.Sel.Pos()}
+					}
+				}
+			}
+			if id, ok := x.X.(*ast.Ident); ok {
+				if pn, ok := info.Uses[id].(*types.PkgName); ok {
+					// a constant of another package by value, otherwise the package's own name as qualifier
+					if tv, ok := info.Types[x]; ok && tv.Value != nil && tv.Value.Kind() == constant.String {
+						c.Replace(&ast.BasicLit{Kind: token.STRING, Value: strconv.Quote(constant.StringVal(tv.Value)), ValuePos: x.Pos()})
+						return true
+					}
+					x.X = &ast.Ident{Name: pn.Imported().Name(), NamePos: id.Pos()}
+				}
+			}
+		case *ast.Ident:
+			if _, isField := c.Parent().(*ast.SelectorExpr); isField && c.Name() == "Sel" {
+				return true
+			}
+			if kv, ok := c.Parent().(*ast.KeyValueExpr); ok && kv.Key == x {
+				return true
+			}
+			o := info.Uses[x]
+			if o == nil {
+				o = info.Defs[x]
+			}
+			if cst, ok := o.(*types.Const); ok && cst.Val().Kind() == constant.String && cst.Pkg() != nil {
+				c.Replace(&ast.BasicLit{Kind: token.STRING, Value: strconv.Quote(constant.StringVal(cst.Val())), ValuePos: x.Pos()})
+				return true
+			}
+			if cn, ok := n.rename[o]; ok {
+				c.Replace(&ast.Ident{Name: cn, NamePos: x.Pos()})
+			}
+		}
+		return true
+	})
+}
+
+// canonLit: &writer{pw, sync.WaitGroup{}, false, nil}  →  &writer{WriteCloser: pw}
+func (n *c12Norm) canonLit(cl *ast.CompositeLit) {
+	info := n.c.info
+	t := info.TypeOf(cl)
+	if t == nil {
+		return
+	}
+	nt, ok := types.Unalias(t).(*types.Named)
+	if !ok || nt.Obj().Pkg() != n.c.pkg {
+		return
+	}
+	if _, ok := c12FieldNames[nt.Obj().Name()]; !ok {
+		return
+	}
+	st, ok := nt.Underlying().(*types.Struct)
+	if !ok {
+		return
+	}
+	type fv struct {
+		name string
+		val  ast.Expr
+	}
+	var out []fv
+	for i, el := range cl.Elts {
+		var f *types.Var
+		val := el
+		if kv, ok := el.(*ast.KeyValueExpr); ok {
+			id, ok := kv.Key.(*ast.Ident)
+			if !ok {
+				return
+			}
+			f, _ = info.Uses[id].(*types.Var)
+			val = kv.Value
+		} else if i < st.NumFields() {
+			f = st.Field(i)
+		}
+		if f == nil {
+			return
+		}
+		name := n.fieldName(f, nt)
+		if name == "" {
+			name = f.Name()
+		}
+		if isZeroValueExpr(info, val) {
+			continue
+		}
+		out = append(out, fv{name, val})
+	}
+	sort.Slice(out, func(i, j int) bool { return out[i].name < out[j].name })
+	cl.Elts = nil
+	for _, x := range out {
+		cl.Elts = append(cl.Elts, &ast.KeyValueExpr{Key: &ast.Ident{Name: x.name, NamePos: x.val.Pos()}, Colon: x.val.Pos(), Value: x.val})
+	}
+}
+
+// canonCmp: nil != x → x != nil;  x == true → x
+func (n *c12Norm) canonCmp(c *astutil.Cursor, b *ast.BinaryExpr) {
+	info := n.c.info
+	isNil := func(x ast.Expr) bool {
+		id, ok := unparen(x).(*ast.Ident)
+		if !ok {
+			return false
+		}
+		_, isN := info.Uses[id].(*types.Nil)
+		return isN
+	}
+	if (b.Op == token.EQL || b.Op == token.NEQ) && isNil(b.X) && !isNil(b.Y) {
+		b.X, b.Y = b.Y, b.X
+	}
+	if b.Op == token.EQL {
+		for _, pr := range [][2]ast.Expr{{b.X, b.Y}, {b.Y, b.X}} {
+			if tv, ok := info.Types[pr[1]]; ok && tv.Value != nil && tv.Value.Kind() == constant.Bool && constant.BoolVal(tv.Value) {
+				c.Replace(pr[0])
+				return
+			}
+		}
+	}
+}
+
+func (n *c12Norm) errCmpNil(cond ast.Expr, op token.Token) types.Object {
+	info := n.c.info
+	b, ok := unparen(cond).(*ast.BinaryExpr)
+	if !ok || b.Op != op {
+		return nil
+	}
+	for _, pr := range [][2]ast.Expr{{b.X, b.Y}, {b.Y, b.X}} {
+		if id, ok := unparen(pr[1]).(*ast.Ident); ok {
+			if _, isN := info.Uses[id].(*types.Nil); isN {
+				if v, ok := unparen(pr[0]).(*ast.Ident); ok {
+					if o, ok := info.Uses[v].(*types.Var); ok && isErrorType(o.Type()) {
+						return o
+					}
+				}
+			}
+		}
+	}
+	return nil
+}
+
+// rewriteLists applies the statement-level normalisations to every statement list of the body
+func (n *c12Norm) rewriteLists(body *ast.BlockStmt) {
+	info := n.c.info
+	// uses of each object
+	uses := map[types.Object]int{}
+	ast.Inspect(body, func(x ast.Node) bool {
+		if id, ok := x.(*ast.Ident); ok {
+			if o := info.Uses[id]; o != nil {
+				uses[o]++
+			}
+		}
+		return true
+	})
+	var fix func(list []ast.Stmt) []ast.Stmt
+	fix = func(list []ast.Stmt) []ast.Stmt {
+		// (c') `if e == nil { S…; return … }; T…; return …`  →  `if e != nil { T…; return … }; S…; return …`
+		for i, s := range list {
+			st, ok := s.(*ast.IfStmt)
+			if !ok || st.Else != nil || st.Init != nil || n.errCmpNil(st.Cond, token.EQL) == nil || i+1 >= len(list) || len(st.Body.List) == 0 {
+				continue
+			}
+			if _, isRet := st.Body.List[len(st.Body.List)-1].(*ast.ReturnStmt); !isRet {
+				continue
+			}
+			if _, isRet := list[len(list)-1].(*ast.ReturnStmt); !isRet {
+				continue
+			}
+			rest := append([]ast.Stmt(nil), list[i+1:]...)
+			unparen(st.Cond).(*ast.BinaryExpr).Op = token.NEQ
+			then := st.Body.List
+			st.Body = &ast.BlockStmt{List: rest}
+			list = append(append(append([]ast.Stmt(nil), list[:i]...), st), then...)
+			break
+		}
+		var out []ast.Stmt
+		for i := 0; i < len(list); i++ {
+			s := list[i]
+			// (a) role-less local defined once, used once, in the next statement: substitute
+			if a, ok := s.(*ast.AssignStmt); ok && a.Tok == token.DEFINE && len(a.Lhs) == 1 && len(a.Rhs) == 1 && i+1 < len(list) {
+				if id, ok := a.Lhs[0].(*ast.Ident); ok {
+					o := info.Defs[id]
+					if _, hasRole := n.rename[o]; o != nil && !hasRole && uses[o] == 1 {
+						replaced := false
+						list[i+1] = astutil.Apply(list[i+1], func(c *astutil.Cursor) bool {
+							if u, ok := c.Node().(*ast.Ident); ok && info.Uses[u] == o && !replaced {
+								c.Replace(a.Rhs[0])
+								replaced = true
+								return false
+							}
+							return true
+						}, nil).(ast.Stmt)
+						if replaced {
+							continue
+						}
+					}
+				}
+			}
+			// (b) e := f(); if e != nil … → if e := f(); e != nil …
+			if a, ok := s.(*ast.AssignStmt); ok && a.Tok == token.DEFINE && len(a.Lhs) == 1 && len(a.Rhs) == 1 && i+1 < len(list) {
+				if id, ok := a.Lhs[0].(*ast.Ident); ok {
+					if o, ok := info.Defs[id].(*types.Var); ok && isErrorType(o.Type()) {
+						if is, ok := list[i+1].(*ast.IfStmt); ok && is.Init == nil && (n.errCmpNil(is.Cond, token.NEQ) == o || n.errCmpNil(is.Cond, token.EQL) == o) {
+							// only when the variable is not used after the if
+							usedLater := false
+							for _, later := range list[i+2:] {
+								ast.Inspect(later, func(x ast.Node) bool {
+									if u, ok := x.(*ast.Ident); ok && info.Uses[u] == o {
+										usedLater = true
+									}
+									return !usedLater
+								})
+							}
+							if !usedLater {
+								is.Init = a
+								continue
+							}
+						}
+					}
+				}
+			}
+			out = append(out, s)
+		}
+		for _, s := range out {
+			switch st := s.(type) {
+			case *ast.IfStmt:
+				// (c) if e == nil { A } else { B }  →  if e != nil { B } else { A }
+				if eb, ok := st.Else.(*ast.BlockStmt); ok && n.errCmpNil(st.Cond, token.EQL) != nil {
+					b := unparen(st.Cond).(*ast.BinaryExpr)
+					b.Op = token.NEQ
+					st.Body, st.Else = eb, st.Body
+				}
+				st.Body.List = fix(st.Body.List)
+				if eb, ok := st.Else.(*ast.BlockStmt); ok {
+					eb.List = fix(eb.List)
+				}
+			case *ast.BlockStmt:
+				st.List = fix(st.List)
+			case *ast.ForStmt:
+				st.Body.List = fix(st.Body.List)
+			case *ast.RangeStmt:
+				st.Body.List = fix(st.Body.List)
+			}
+			ast.Inspect(s, func(x ast.Node) bool {
+				if fl, ok := x.(*ast.FuncLit); ok {
+					fl.Body.List = fix(fl.Body.List)
+					return false
+				}
+				return true
+			})
+		}
+		return out
+	}
+	body.List = fix(body.List)
+}
+
+// ---- atoms ----
+
+type c12Walker struct{ fset *token.FileSet }
+
+func (c *c12Walker) text(n ast.Node) string { return nodeText(c.fset, n) }
+
+// stripPos makes every position below n the same: the rewritten tree mixes nodes from different places, and go/printer lays a
+// node out by its positions; without positions it prints the canonical layout
+func stripPos(n ast.Node) {
+	ast.Inspect(n, func(x ast.Node) bool {
+		if x == nil {
+			return true
+		}
+		v := reflect.ValueOf(x)
+		if v.Kind() != reflect.Ptr || v.IsNil() {
+			return true
+		}
+		v = v.Elem()
+		if v.Kind() != reflect.Struct {
+			return true
+		}
+		for i := 0; i < v.NumField(); i++ {
+			f := v.Field(i)
+			if f.Type() == reflect.TypeOf(token.NoPos) && f.CanSet() && f.Int() != 0 {
+				f.SetInt(1) // "present" (an Ellipsis, a parenthesis) but the same place for every node
+			}
+		}
+		return true
+	})
 }
 
 func (c *c12Walker) list(stmts []ast.Stmt) []string {
 	var out []string
 	for i := 0; i < len(stmts); i++ {
 		s := stmts[i]
-		txt := normText(c.r.Fset, s)
-		// `if z.err == nil { return err }` + `return z.err`
-		if txt == "if z.err == nil { return err }" && i+1 < len(stmts) && normText(c.r.Fset, stmts[i+1]) == "return z.err" {
-			out = append(out, "returnStoredOrCloseErr")
-			i++
-			continue
+		txt := c.text(s)
+		// `if z.err == nil { return err }` + `return z.err`   or   `if z.err != nil { return z.err }` + `return err`
+		if i+1 < len(stmts) {
+			nxt := c.text(stmts[i+1])
+			if (txt == "if z.err == nil { return err }" && nxt == "return z.err") || (txt == "if z.err != nil { return z.err }" && nxt == "return err") {
+				out = append(out, "returnStoredOrCloseErr")
+				i++
+				continue
+			}
 		}
 		if a, ok := c12Leaf[txt]; ok {
 			out = append(out, a)
@@ -96,19 +662,19 @@ func (c *c12Walker) list(stmts []ast.Stmt) []string {
 			}
 		case *ast.IfStmt:
 			if st.Init != nil {
-				it := normText(c.r.Fset, st.Init)
-				cond := normText(c.r.Fset, st.Cond)
+				it := c.text(st.Init)
+				cond := c.text(st.Cond)
 				if m := c12CallRe.FindStringSubmatch(it); m != nil && cond == "err != nil" {
 					dst, src := m[2], m[3]
 					if m[4] != "" {
 						dst, src = "rw", m[4]
 					}
-					body := normText(c.r.Fset, st.Body)
+					body := c.text(st.Body)
 					switch {
 					case st.Else == nil && body == "{ z.err = err }":
 						out = append(out, fmt.Sprintf("callMinify %s %s", leanStr(dst), leanStr(src)), "storeErr")
 						continue
-					case st.Else != nil && body == "{ pw.CloseWithError(err) }" && normText(c.r.Fset, st.Else) == "{ pw.Close() }":
+					case st.Else != nil && body == "{ pw.CloseWithError(err) }" && c.text(st.Else) == "{ pw.Close() }":
 						out = append(out, fmt.Sprintf("callMinify %s %s", leanStr(dst), leanStr(src)), "closeWithErrorElseClose")
 						continue
 					}
@@ -123,7 +689,7 @@ func (c *c12Walker) list(stmts []ast.Stmt) []string {
 						continue
 					}
 				}
-			} else if normText(c.r.Fset, st.Cond) == "w.z == nil" && st.Else == nil {
+			} else if c.text(st.Cond) == "w.z == nil" && st.Else == nil {
 				out = append(out, "firstWriteBegin")
 				out = append(out, c.list(st.Body.List)...)
 				out = append(out, "firstWriteEnd")
@@ -132,8 +698,8 @@ func (c *c12Walker) list(stmts []ast.Stmt) []string {
 		case *ast.ReturnStmt:
 			// return http.HandlerFunc(func(w http.ResponseWriter, r *http.Request) { … })
 			if len(st.Results) == 1 {
-				if call, ok := st.Results[0].(*ast.CallExpr); ok && len(call.Args) == 1 && normText(c.r.Fset, call.Fun) == "http.HandlerFunc" {
-					if fl, ok := call.Args[0].(*ast.FuncLit); ok && normText(c.r.Fset, fl.Type) == "func(w http.ResponseWriter, r *http.Request)" {
+				if call, ok := st.Results[0].(*ast.CallExpr); ok && len(call.Args) == 1 && c.text(call.Fun) == "http.HandlerFunc" {
+					if fl, ok := call.Args[0].(*ast.FuncLit); ok && c.text(fl.Type) == "func(w http.ResponseWriter, r *http.Request)" {
 						out = append(out, "handlerBegin")
 						out = append(out, c.list(fl.Body.List)...)
 						out = append(out, "handlerEnd")
@@ -149,57 +715,6 @@ func (c *c12Walker) list(stmts []ast.Stmt) []string {
 		out = append(out, "other "+leanStr(t))
 	}
 	return out
-}
-
-// readerUses classifies every use of the io.Reader parameter `name` in the function body.
-func (c *c12Walker) readerUses(fd *ast.FuncDecl, name string) []string {
-	var uses []string
-	var stack []ast.Node
-	ast.Inspect(fd.Body, func(n ast.Node) bool {
-		if n == nil {
-			stack = stack[:len(stack)-1]
-			return true
-		}
-		stack = append(stack, n)
-		id, ok := n.(*ast.Ident)
-		if !ok || id.Name != name {
-			return true
-		}
-		// field selectors `x.r` are not uses of the parameter
-		if len(stack) >= 2 {
-			if sel, ok := stack[len(stack)-2].(*ast.SelectorExpr); ok && sel.Sel == id {
-				return true
-			}
-		}
-		kind := "other " + leanStr(c14Src(c.r.Fset, stack[max(0, len(stack)-3)]))
-		if len(stack) >= 2 {
-			if call, ok := stack[len(stack)-2].(*ast.CallExpr); ok {
-				isArg := false
-				for _, a := range call.Args {
-					if a == ast.Expr(id) {
-						isArg = true
-					}
-				}
-				if isArg {
-					fn := normText(c.r.Fset, call.Fun)
-					switch {
-					case fn == "parse.NewInput" && len(call.Args) == 1:
-						kind = "newInput"
-					default:
-						kind = "passOn"
-						if len(stack) >= 3 {
-							if _, ok := stack[len(stack)-3].(*ast.ReturnStmt); ok {
-								kind = "passOnReturn"
-							}
-						}
-					}
-				}
-			}
-		}
-		uses = append(uses, kind)
-		return true
-	})
-	return uses
 }
 
 // ---- ownership of returned memory ----
@@ -237,20 +752,20 @@ func (c *c12Walker) retExpr(e ast.Expr, input string) (atom, buf string) {
 		return "RetExpr.copyOfBuf", x
 	}
 	if call, ok := e.(*ast.CallExpr); ok {
-		fn := normText(c.r.Fset, call.Fun)
+		fn := c.text(call.Fun)
 		switch {
 		case (fn == "string" || fn == "parse.Copy" || fn == "bytes.Clone" || fn == "slices.Clone") && len(call.Args) == 1:
 			if x, ok := c12BufOf(call.Args[0], "Bytes"); ok {
 				return "RetExpr.copyOfBuf", x
 			}
 		case fn == "append" && len(call.Args) == 2 && call.Ellipsis.IsValid():
-			a0 := normText(c.r.Fset, call.Args[0])
+			a0 := c.text(call.Args[0])
 			if x, ok := c12BufOf(call.Args[1], "Bytes"); ok && (a0 == "[]byte(nil)" || a0 == "[]byte{}") {
 				return "RetExpr.copyOfBuf", x
 			}
 		}
 	}
-	return "RetExpr.other " + leanStr(c12Clip(normText(c.r.Fset, e))), ""
+	return "RetExpr.other " + leanStr(c12Clip(c.text(e))), ""
 }
 
 func c12Clip(t string) string {
@@ -283,10 +798,10 @@ func (c *c12Walker) bufOrigin(fd *ast.FuncDecl, name string) string {
 					if st.Tok == token.DEFINE && len(st.Lhs) == 1 && len(st.Rhs) == 1 && i == 0 {
 						ndecl++
 						declIdent = id
-						declText = normText(c.r.Fset, st)
-						fresh = c12FreshAlloc.MatchString(normText(c.r.Fset, st.Rhs[0]))
+						declText = c.text(st)
+						fresh = c12FreshAlloc.MatchString(c.text(st.Rhs[0]))
 					} else if escape == "" {
-						escape = "re-assigned: " + normText(c.r.Fset, st)
+						escape = "re-assigned: " + c.text(st)
 					}
 				}
 			}
@@ -295,10 +810,10 @@ func (c *c12Walker) bufOrigin(fd *ast.FuncDecl, name string) string {
 				if id.Name == name {
 					ndecl++
 					declIdent = id
-					declText = "var " + normText(c.r.Fset, st)
+					declText = "var " + c.text(st)
 					t := ""
 					if st.Type != nil {
-						t = normText(c.r.Fset, st.Type)
+						t = c.text(st.Type)
 					}
 					fresh = len(st.Values) == 0 && (t == "bytes.Buffer" || t == "buffer.Writer")
 				}
@@ -333,7 +848,7 @@ func (c *c12Walker) bufOrigin(fd *ast.FuncDecl, name string) string {
 		stmt := func() string {
 			for i := len(stack) - 1; i >= 0; i-- {
 				if s, ok := stack[i].(ast.Stmt); ok {
-					return normText(c.r.Fset, s)
+					return c.text(s)
 				}
 			}
 			return name
@@ -360,7 +875,7 @@ func (c *c12Walker) bufOrigin(fd *ast.FuncDecl, name string) string {
 				return true
 			}
 		case *ast.CallExpr:
-			fn := normText(c.r.Fset, p.Fun)
+			fn := c.text(p.Fun)
 			if (fn == "m.Minify" && len(p.Args) == 3 || fn == "m.MinifyMimetype" && len(p.Args) == 4) && p.Args[1] == cur {
 				return true
 			}
@@ -411,25 +926,84 @@ func (c *c12Walker) retFact(fd *ast.FuncDecl, label string) (string, error) {
 	return fmt.Sprintf("  { func := %s, buf := %s, returns := [%s] }", leanStr(label), origin, strings.Join(rets, ", ")), nil
 }
 
+// readerUses classifies every use of the io.Reader parameter in the function body (shared typed AST, by object).
+func c12ReaderUses(e *tenv, p *packages.Package, fd *ast.FuncDecl, robj types.Object) []string {
+	info := p.TypesInfo
+	var uses []string
+	var stack []ast.Node
+	ast.Inspect(fd.Body, func(n ast.Node) bool {
+		if n == nil {
+			stack = stack[:len(stack)-1]
+			return true
+		}
+		stack = append(stack, n)
+		id, ok := n.(*ast.Ident)
+		if !ok || info.Uses[id] != robj {
+			return true
+		}
+		kind := "other " + leanStr(c14Src(e.r.Fset, stack[max(0, len(stack)-3)]))
+		if len(stack) >= 2 {
+			if call, ok := stack[len(stack)-2].(*ast.CallExpr); ok {
+				isArg := false
+				for _, a := range call.Args {
+					if a == ast.Expr(id) {
+						isArg = true
+					}
+				}
+				if isArg {
+					fn := calleeOf(info, call)
+					switch {
+					case fn != nil && fn.Pkg() != nil && fn.Pkg().Path() == "github.com/tdewolff/parse/v2" && fn.Name() == "NewInput" && len(call.Args) == 1:
+						kind = "newInput"
+					default:
+						kind = "passOn"
+						if len(stack) >= 3 {
+							if _, ok := stack[len(stack)-3].(*ast.ReturnStmt); ok {
+								kind = "passOnReturn"
+							}
+						}
+					}
+				}
+			}
+		}
+		uses = append(uses, kind)
+		return true
+	})
+	return uses
+}
+
 func init() {
 	gen("Wrappers", func(r *Repo) (string, error) {
-		c := &c12Walker{r: r}
+		e, err := r.TEnv()
+		if err != nil {
+			return "", err
+		}
+		cp, err := c12PrivateCopy(e, ".")
+		if err != nil {
+			return "", err
+		}
+		c := &c12Walker{fset: cp.fset}
 		var sb strings.Builder
 		sb.WriteString("import Verif.Base.SkelIR\nimport Verif.Base.SkelOwn\n")
 		sb.WriteString(header("Wrappers", "/repo/minify.go (wrapper functions) and the Minify methods of all library packages"))
 		sb.WriteString("open Verif.Skel Verif.Skel.WAtom\n\n")
 		funcs := []struct{ field, recv, name string }{
-			{"reader", "*M", "Reader"}, {"writer", "*M", "Writer"}, {"writerClose", "*writer", "Close"},
-			{"rwWriteHeader", "*responseWriter", "WriteHeader"}, {"rwWrite", "*responseWriter", "Write"}, {"rwClose", "*responseWriter", "Close"},
-			{"responseWriter", "*M", "ResponseWriter"}, {"middleware", "*M", "Middleware"}, {"middlewareWithError", "*M", "MiddlewareWithError"},
-			{"bytes", "*M", "Bytes"}, {"string", "*M", "String"},
+			{"reader", "M", "Reader"}, {"writer", "M", "Writer"}, {"writerClose", "writer", "Close"},
+			{"rwWriteHeader", "responseWriter", "WriteHeader"}, {"rwWrite", "responseWriter", "Write"}, {"rwClose", "responseWriter", "Close"},
+			{"responseWriter", "M", "ResponseWriter"}, {"middleware", "M", "Middleware"}, {"middlewareWithError", "M", "MiddlewareWithError"},
+			{"bytes", "M", "Bytes"}, {"string", "M", "String"},
 		}
+		normalised := map[string]*ast.FuncDecl{}
 		sb.WriteString("def skel : WSkel :=\n  {")
 		for i, f := range funcs {
-			fd, err := r.FindFunc(".", f.recv, f.name)
+			fd, err := cp.funcDecl(f.recv, f.name)
 			if err != nil {
 				return "", err
 			}
+			n := &c12Norm{c: cp}
+			n.normalise(fd, f.recv+"."+f.name)
+			stripPos(fd)
+			normalised[f.name] = fd
 			atoms := c.list(fd.Body.List)
 			if i > 0 {
 				sb.WriteString("\n   ")
@@ -441,26 +1015,30 @@ func init() {
 		type fn struct{ rel, recv, name, label string }
 		var fns []fn
 		for _, p := range c14Pkgs {
-			fns = append(fns, fn{p, "*Minifier", "Minify", p + ".(*Minifier).Minify"}, fn{p, "", "Minify", p + ".Minify"})
+			fns = append(fns, fn{p, "Minifier", "Minify", p + ".(*Minifier).Minify"}, fn{p, "", "Minify", p + ".Minify"})
 		}
-		fns = append(fns, fn{".", "*M", "Minify", "minify.(*M).Minify"}, fn{".", "*M", "MinifyMimetype", "minify.(*M).MinifyMimetype"}, fn{".", "MinifierFunc", "Minify", "minify.MinifierFunc.Minify"})
+		fns = append(fns, fn{".", "M", "Minify", "minify.(*M).Minify"}, fn{".", "M", "MinifyMimetype", "minify.(*M).MinifyMimetype"}, fn{".", "MinifierFunc", "Minify", "minify.MinifierFunc.Minify"})
 		sb.WriteString("def inputUses : List InputUse := [\n")
 		for i, f := range fns {
-			fd, err := r.FindFunc(f.rel, f.recv, f.name)
+			fd, p, err := e.FuncDecl(f.rel, f.recv, f.name)
 			if err != nil {
 				return "", err
 			}
 			// the reader parameter: the one of type io.Reader
-			rname := ""
-			for _, p := range fd.Type.Params.List {
-				if normText(r.Fset, p.Type) == "io.Reader" && len(p.Names) == 1 {
-					rname = p.Names[0].Name
+			var robj types.Object
+			for _, pf := range fd.Type.Params.List {
+				for _, id := range pf.Names {
+					if o, ok := p.TypesInfo.Defs[id].(*types.Var); ok {
+						if nt, ok := types.Unalias(o.Type()).(*types.Named); ok && nt.Obj().Name() == "Reader" && nt.Obj().Pkg() != nil && nt.Obj().Pkg().Path() == "io" {
+							robj = o
+						}
+					}
 				}
 			}
-			if rname == "" {
+			if robj == nil {
 				return "", fmt.Errorf("%s: no io.Reader parameter", f.label)
 			}
-			uses := c.readerUses(fd, rname)
+			uses := c12ReaderUses(e, p, fd, robj)
 			sep := ","
 			if i == len(fns)-1 {
 				sep = ""
@@ -468,14 +1046,10 @@ func init() {
 			fmt.Fprintf(&sb, "  { func := %s, uses := [%s] }%s\n", leanStr(f.label), strings.Join(prefixAll(uses, "RUse."), ", "), sep)
 		}
 		sb.WriteString("]\n\n")
-		// RetFacts
+		// RetFacts (on the normal form: canonical names, so `m.Minify`, `out`, `v` are what they denote, not how they are spelled)
 		sb.WriteString("def retFacts : List RetFact := [\n")
 		for i, name := range []string{"Bytes", "String"} {
-			fd, err := r.FindFunc(".", "*M", name)
-			if err != nil {
-				return "", err
-			}
-			line, err := c.retFact(fd, name)
+			line, err := c.retFact(normalised[name], name)
 			if err != nil {
 				return "", err
 			}
